@@ -293,8 +293,10 @@ def run_case(case, rng):
     nsim = rng.choice([1, 3, 10])
     sseed = rng.choice([0, 1, rng.randrange(2 ** 31), None])     # None: the object draws its own seed once and keeps it
     inc_actions = rng.random() < 0.5
-    semi = SemiMarkovDecisionProcess(mdp=mdp, options=[opt], n_option_simulations=nsim,
-                                     include_mdp_actions=inc_actions, seed=sseed)
+    from mon import defaults as Dflt
+    skw, _om = Dflt.rely_on_defaults(case, rng, "SemiMarkovDecisionProcess", dict(include_mdp_actions=inc_actions, seed=sseed))
+    semi = SemiMarkovDecisionProcess(mdp=mdp, options=[opt], n_option_simulations=nsim, **skw)
+    Dflt.in_force(case, "SemiMarkovDecisionProcess", semi, passed=dict(skw, seed=0) if sseed is None else skw)
     # two UNNAMED sub-goal options with different sub-goals in one semi-MDP, queried from the same state
     if gamma < 1 and len(S) >= 3:
         g1, g2 = rng.sample(S, 2)
